@@ -13,7 +13,7 @@ trap cleanup EXIT
 if ! git -C "$WT" apply "$P" 2>/dev/null; then
   if ! git -C "$WT" apply --3way "$P" 2>/dev/null; then echo "patch does not apply: $P"; exit 3; fi
 fi
-cd /verif && VERIF_REPO="$WT" VERIF_SCRATCH_OUT="$OUT" bin/vcheck "$ID" --tier "$TIER" 2>&1 | sed "s|$OUT|<scratch>|g; s|$WT|<scratch-repo>|g" | tail -${TAIL:-6}
+cd /verif && VERIF_REPO="$WT" VERIF_SCRATCH_OUT="$OUT" bin/vcheck "$ID" --tier "$TIER" ${TRYMUT_SEED:+--seed $TRYMUT_SEED} 2>&1 | sed "s|$OUT|<scratch>|g; s|$WT|<scratch-repo>|g" | tail -${TAIL:-6}
 rc=${PIPESTATUS[0]}
 echo "[trymut] $ID with $(basename $(dirname $P))/$(basename $P): exit $rc"
 exit $rc
